@@ -120,7 +120,11 @@ def _unique_outputs(scope: Scope) -> set[str]:
 
 def _has_single_output_row(scope: Scope) -> bool:
     return isinstance(scope.expression, exp.Select) and (
-        all(isinstance(e.unalias(), exp.AggFunc) for e in scope.expression.selects)
+        (
+            # Aggregates alone yield one row only when there's no GROUP BY (else: one row per group)
+            not scope.expression.args.get("group")
+            and all(isinstance(e.unalias(), exp.AggFunc) for e in scope.expression.selects)
+        )
         or _is_limit_1(scope)
         or not scope.expression.args.get("from_")
     )
